@@ -52,9 +52,15 @@ def run_check(pid, tier, replay=None):
         print(tables_out)
     proof = hv.check_props(pid)
     if not tables_ok:
-        # a table generator could not read what it expects from the Rust source: the theorems would be re-checked
-        # against stale tables, so the obligation "tables = source" is broken
-        proof['broken'].append(('gen_tables', tables_out[-600:]))
+        # a table generator could not read what it expects from the Rust source: the theorems that depend on its table
+        # would be re-checked against a stale table, so the obligation "table = source" is broken for them (and only them)
+        failed = hv.failed_table_modules(tables_out)
+        deps = hv.coq_deps_of_property(pid)
+        if not failed or (failed & deps):
+            proof['broken'].append(('gen_tables', tables_out[-600:]))
+        else:
+            ctx.notes.append('table generator(s) for %s failed, but no theorem of %s depends on them: %s' % (
+                ', '.join(sorted(failed)), pid, tables_out.strip()[-300:]))
     forbidden = hv.scan_forbidden()
     # 2. builds (model extraction + harness from /repo's working tree, hooks on)
     ok, out = hv.build_model()
